@@ -309,6 +309,13 @@ def drive(case, scratch):
         dyn_calls[0] = 0
         del pf_names[:]
         armed.clear()
+        if with_pf and op.get("faults"):
+            # the database cache is warm when a stub is armed (a cold load parses the database files with
+            # PythonBlock, which would put the SParse stub on the database-load path)
+            try:
+                D.ImportDB.get_default(".")
+            except Exception:
+                pass
         armed.update({s: e for s, e in op.get("faults", [])})
         hits.clear()
         sys.setprofile(prof)
